@@ -23,7 +23,7 @@ def cnt (s : St) : Nat :=
   (if s.recv = .exited then 0 else 1) + (if s.send = .exited then 0 else 1) + (if PPc.past s.proc then 0 else 1)
 
 def RPc.closedRing : RPc → Bool
-  | .wgDone => true | .exited => true | _ => false
+  | .connClose => true | .wgDone => true | .exited => true | _ => false
 
 def SPc.closedRing : SPc → Bool
   | .wgDone => true | .exited => true | _ => false
@@ -52,6 +52,7 @@ structure Init (c : Cfg) (s : St) : Prop where
   ws : ∀ w, w ∈ s.ws → w.pc = .check
   inOpen : s.sh.inR.done = false
   outOpen : s.sh.outR.done = false
+  noTimeout : s.sh.timeout = false      -- no socket read is pending yet, so no read deadline has fired
 
 theorem invA_init (c : Cfg) (s : St) (h : Init c s) : InvA c s := by
   refine ⟨?_, ?_, ?_, ?_, ?_, ?_⟩
@@ -165,11 +166,19 @@ theorem invA_recv (c : Cfg) (hw : WF c) (s : St) (sh' : Sh) (pc' : RPc) (k : Nat
         · intro n hn; cases hn
   | close =>
     rw [hpc] at h
-    simp only [rstep, close_returns c hw.d2] at h
+    simp only [rstep, close_returns c hw.d2, hw.rc] at h
     simp at h; obtain ⟨rfl, rfl⟩ := h
     refine ⟨?_, ?_, hi.sdone, ?_, ?_, hi.swin⟩
     · simpa [cnt, hpc] using hwg
     · simp
+    · intro hn; cases hn
+    · intro n hn; cases hn
+  | connClose =>
+    rw [hpc] at h
+    simp [rstep] at h; obtain ⟨rfl, rfl⟩ := h
+    refine ⟨?_, ?_, hi.sdone, ?_, ?_, hi.swin⟩
+    · simpa [cnt, hpc] using hwg
+    · intro _; exact hi.rdone (by simp [hpc, RPc.closedRing])
     · intro hn; cases hn
     · intro n hn; cases hn
   | wgDone =>
@@ -514,7 +523,8 @@ theorem rstep_wmu (c : Cfg) (hw : WF c) (sh sh' : Sh) (k : Nat) (pc pc' : RPc)
     cases hs : sh.inR.commitP c n with
     | none => simp [hs] at h
     | some q => obtain ⟨ret, r⟩ := q; cases ret <;> simp [hs] at h <;> obtain ⟨rfl, rfl⟩ := h <;> rfl
-  | close => simp only [rstep, close_returns c hw.d2] at h; simp at h; obtain ⟨rfl, rfl⟩ := h; rfl
+  | close => simp only [rstep, close_returns c hw.d2, hw.rc] at h; simp at h; obtain ⟨rfl, rfl⟩ := h; rfl
+  | connClose => simp [rstep] at h; obtain ⟨rfl, rfl⟩ := h; rfl
   | wgDone => simp [rstep] at h; obtain ⟨rfl, rfl⟩ := h; rfl
   | exited => simp [rstep] at h
 
